@@ -456,6 +456,8 @@ fn gen_bytes(r: &mut Rng) -> Vec<u8> {
         0 => r.below(4),
         1 => 61 + r.below(4),
         2 => 65 + r.below(200), // beyond the designed 0..=64 too
+        // buffer-size boundaries of chunked encoders: around 2^8 .. 2^16, and odd large sizes
+        3 if r.chance(1, 4) => *r.pick(&[255usize, 256, 257, 511, 512, 513, 767, 768, 1023, 1024, 1025, 1026, 1027, 2047, 2048, 2049, 3071, 3072, 3073, 4095, 4096, 4097, 8191, 8193, 16385, 65535, 65536, 65537]) + r.below(2),
         _ => r.below(65),
     };
     match r.below(6) {
